@@ -53,3 +53,17 @@ Theorem C03_unsafe_has_invalid_vc :
   (exists vc, In vc (vcgen ex_bad) /\ ~ valid vc) /\ (exists vc, In vc (vcgen ex_window) /\ ~ valid vc).
 Proof. exact (conj ex_bad_invalid_vc ex_window_invalid_vc). Qed.
 Print Assumptions C03_unsafe_has_invalid_vc.
+
+(** Witnesses of the findings of the search (programs the real front end accepts, as exported): an access
+    beyond a window's own extent, a read inside an extern argument, a window alias passed by name whose callee
+    writes past the buffer, (and [ex_window] above: a window beyond its source).  Each fails in the reference
+    semantics on a valid input and each has an invalid VC, i.e. [vcgen] rejects what exo accepts. *)
+Theorem C03_findings_witnesses :
+  (run ex_own (mkInput (buf8 :: buf8 :: nil) nil) = Fails OOB /\
+   run ex_extern (mkInput (buf8 :: buf8 :: nil) nil) = Fails OOB /\
+   run ex_byname (mkInput (buf8 :: nil) nil) = Fails OOB) /\
+  ((exists vc, In vc (vcgen ex_own) /\ ~ valid vc) /\
+   (exists vc, In vc (vcgen ex_extern) /\ ~ valid vc) /\
+   (exists vc, In vc (vcgen ex_byname) /\ ~ valid vc)).
+Proof. exact (conj findings_fail findings_invalid_vcs). Qed.
+Print Assumptions C03_findings_witnesses.
